@@ -270,6 +270,9 @@ func genC18(r *Run) {
 	for i := 0; i < nseq; i++ {
 		boundKind := r.Rng.Intn(3)
 		bip := r.Bytes(4)
+		if r.Rng.Intn(4) == 0 { // bound addresses that are "special" elsewhere: unspecified, limited broadcast, loopback
+			bip = [][]byte{{0, 0, 0, 0}, {255, 255, 255, 255}, {127, 0, 0, 1}}[r.Rng.Intn(3)]
+		}
 		if boundKind == 2 && r.Rng.Intn(3) == 0 {
 			bip = append(append(make([]byte, 10), 0xff, 0xff), bip...) // 16-octet form of the bound address
 		}
@@ -310,7 +313,7 @@ func genC18(r *Run) {
 			case 7:
 				s.dport = bport + 1
 			case 8:
-				s.dip = r.Bytes(4)
+				s.dip = [][]byte{r.Bytes(4), {0, 0, 0, 0}, {255, 255, 255, 255}, {10, 0, 0, 7}}[r.Rng.Intn(4)]
 			case 9:
 				s.ihl = r.Rng.Intn(5)
 			case 10:
